@@ -283,24 +283,56 @@ REQ = bytes.fromhex('0000d1d7500161c1')
 RESP = bytes.fromhex('0000d9')
 
 
+TRL = bytes.fromhex('000023782d740176')
+
+
 def hc_cases():
-    """streams whose frame-layer outcome is an error: the code must be the one the REAL handlers raise (request-stream
-    handler on a server / a client, poll_control for the control stream)"""
+    """streams whose frame-layer outcome is an error: the code must be the one the REAL endpoints raise (request path of
+    a server / a client incl. after trailers, poll_control for the control stream before and after SETTINGS), whatever the
+    arrival pattern: A everything queued before the first poll, B one chunk per frame, C the FIN arrives late"""
     out = []
     bad = [('07020400', ''), ('0700', ''), ('03020400', ''), ('0d00', ''), ('0500', ''), ('0200', ''), ('0600', ''), ('0800aabb', ''),
            ('0901ff', ''), ('07', 'F'), ('0701', 'F'), ('0103aa', 'F'), ('2105aa', 'F'), ('40', 'F'), ('0e0440', 'F'), ('0004ab', 'F')]
     for site in ('s', 'c'):
         head = mk(1, REQ if site == 's' else RESP).hex()
+        trl = mk(1, TRL).hex()
         for b, e in bad:
-            for pre in ('', head, head + '0002abcd', head + '2100'):
-                if b.startswith('00') and not pre:
-                    continue          # DATA before HEADERS is a request-level matter (C03)
-                out.append('hc %s %s %s' % (site, pre + b, e or '-'))
+            pres = ['', head, head + '.0002abcd', head + '.2100', head + '.' + trl, head + '.0003616263.' + trl + '.2100']
+            for pre in pres:
+                if b.startswith('00') and (not pre or trl in pre):
+                    continue          # DATA before HEADERS / after trailers is a request-level matter (C03)
+                if b.startswith('01') and trl in pre:
+                    continue
+                for pat in 'ABC':
+                    out.append('hc %s %s %s %s' % (site, (pre + '.' + b).lstrip('.'), e or '-', pat))
     for b, e in bad:
         if b.startswith('00') or b.startswith('01') or b.startswith('05'):
             continue                  # DATA / HEADERS / PUSH_PROMISE on the control stream: C04's rules come first
         for pre in ('', '2100', '0e03aabbcc'):
-            out.append('hc ctl %s %s' % (pre + b, e or '-'))
+            for pat in 'ABC':
+                out.append('hc ctl %s %s %s' % ((pre + '.' + b).lstrip('.'), e or '-', pat))
+    # before any SETTINGS frame: a frame cut by FIN is a frame error, not a missing-SETTINGS matter
+    for b in ('04', '0402', '040201', '21', '2105aa', '0e', '4021', '07', '0701', '2100.04', '2100.0e03aa', '0d'):
+        for pat in 'ABC':
+            out.append('hc ctl0 %s F %s' % (b, pat))
+    return out
+
+
+def big_length_cases(rng):
+    """declared lengths that do not fit 32 bits (8-byte length varints)"""
+    out = []
+    for t in (0, 0x21, 1, 0x0e):
+        for L in (2 ** 32, 2 ** 32 + 3, 2 ** 32 + 11, 2 ** 40, 2 ** 62 - 1):
+            hdr = mk(t, b'', ll=8, declared=L)
+            for tailb in (b'', b'abc', b'abc' + mk(1, b'\xaa'), b'abc' + mk(1, b'\xaa') + mk(0, b'xy')):
+                s = hdr + tailb
+                out.append('fd ' + s.hex())
+                for e in ('F', ''):
+                    out.append(batch([s], e, 8))
+                    out.append(batch([hdr] + ([tailb] if tailb else []), e, 8))
+                out.append(incremental(rand_chunking(rng, s), 'F', 1))
+            pre = mk(1, b'\x00\x01')
+            out.append(batch([pre + hdr + b'abc' + mk(1, b'\xaa')], 'F', 10))
     return out
 
 
@@ -387,8 +419,10 @@ class P(Property):
             '0/3/63/64/16383/16384 bytes (1/2/4-byte and non-minimal 2/4/8-byte length varints) alone, inside and before other '
             'frames; runs of 20..300 unknown / grease / zero-length DATA / 1-byte DATA / mixed frames followed by HEADERS, whole, one '
             'frame per chunk and randomly chunked; fd: Frame::decode on every alphabet string and on random ones against one step '
-            'of the reference reader; hc: 150 streams ending in a frame-layer error fed to the REAL server / client request path '
-            'and to the control stream (poll_control), the close code observed on the transport; fe: the error-code table. non-trivial = distinct cases whose '
+            'of the reference reader; 8-byte declared lengths 2^32, 2^32+k, 2^40, 2^62-1 for DATA / HEADERS / unknown (fs and fd); hc: '
+            '~290 streams ending in a frame-layer error (also after trailers) fed to the REAL server / client request path and to the '
+            'control stream (poll_control) before and after SETTINGS, each in three arrival patterns (all queued before the first '
+            'poll, one chunk per frame, FIN late), the close code observed on the transport; fe: the error-code table. non-trivial = distinct cases whose '
             'implementation result contains a frame, DATA bytes or a frame-layer error')
 
     def cases(self, tier, rng):
@@ -420,6 +454,7 @@ class P(Property):
         out += ext_cases(rng, tier)
         out += run_cases_long(rng, tier)
         out += hc_cases()
+        out += big_length_cases(rng)
         for _ in range(4000 if tier == 'quick' else 60000):
             s = rand_stream(rng)
             out.append('fd ' + (s[:rng.randint(0, min(len(s), 40))].hex() or '-'))
